@@ -14,6 +14,7 @@
      sftp.py     SFTPServerHandler._process_copy_data loop                                 (section 6)
    Bytes are Z in 0..255, byte strings list Z.  No proofs here. *)
 From AV Require Import Base.Prelude.
+From AV Require Model.Packet.
 
 Definition blen (l : bytes) : Z := Z.of_nat (length l).
 
@@ -502,3 +503,19 @@ Fixpoint copy_loop (fuel : nat) (same : bool) (srcsize roff len woff : Z) (to_en
 
 Definition copy_data (fuel : nat) (same : bool) (srcsize roff len woff : Z) : cres :=
   copy_loop fuel same srcsize roff len woff (len =? 0) 0 0.
+
+(* ====================================================================================== *)
+(* 7. Cost of the clear-text receive loop of connection.py (_recv_data / _recv_pkthdr / _recv_packet), whose
+      model [Packet.recv_loop] is owned by C02: the same recursion, returning the number of handler calls
+      that made the loop go round. *)
+Fixpoint recv_count (fuel : nat) (s : Packet.rstate) : Z :=
+  match fuel with
+  | O => 0
+  | S f => match Packet.inbuf s with
+           | [] => 0
+           | _ => match Packet.recv_step s with
+                  | None => 0
+                  | Some s' => 1 + recv_count f s'
+                  end
+           end
+  end.
